@@ -100,4 +100,29 @@ def do_shapes():
     # hand-written comparison / hashing impls for these types (the model knows exactly two: PartialEq<S> and PartialOrd<S> for QualifierKey)
     out['manual_impls'] = sorted(re.sub(r'\s+', ' ', x) for src in (lib, q, pt) for x in re.findall(r'impl(?:<[^>]*>)?\s+((?:PartialEq|Eq|PartialOrd|Ord|Hash)(?:<[^>]*>)?\s+for\s+\w+(?:<[^>]*>)?)', src))
 attempt('data type shapes', do_shapes)
+def nontest(src):
+    i = src.find('#[cfg(test)]')
+    return src if i < 0 else src[:i]
+def do_state_and_calls():
+    import os
+    files = {}
+    for dp, _, fs in os.walk(root):
+        for f in fs:
+            if f.endswith('.rs'):
+                files[os.path.relpath(os.path.join(dp, f), root)] = '\n'.join(l for l in nontest(open(os.path.join(dp, f)).read()).split('\n') if not l.strip().startswith('//'))
+    # state that survives a call: the model is a pure function of the arguments
+    pat = re.compile(r'thread_local!|\bstatic\s+mut\b|\bstatic\s+\w+\s*:|\bRefCell\b|\bCell<|\bMutex\b|\bRwLock\b|\bOnceCell\b|\bOnceLock\b|\bLazy(Lock|Cell)?\b|\bAtomic\w+|lazy_static!')
+    st = []
+    for f, src in sorted(files.items()):
+        for l in src.split('\n'):
+            t = l.strip()
+            if t.startswith('//'): continue
+            if pat.search(t) and 'static PACKAGE_TYPES' not in t: st.append([f, re.sub(r'\s+', ' ', t)[:120]])
+    out['state_sites'] = st
+    # the calls of the two user hooks (C14: conversion at most once per parse, finish exactly once per build)
+    out['hook_calls'] = {'finish_in_build': len(re.findall(r'\.finish\(', files.get('builder.rs', ''))),
+                         'finish_elsewhere': sum(len(re.findall(r'\.finish\(', src)) for f, src in files.items() if f != 'builder.rs'),
+                         'from_str_in_parse': len(re.findall(r'\bT::from_str\(', files.get('parse.rs', ''))),
+                         'build_calls_in_parse': len(re.findall(r'\.build\(\)', files.get('parse.rs', '')))}
+attempt('state and hook calls', do_state_and_calls)
 print(json.dumps(out, indent=1))
